@@ -210,7 +210,7 @@ def observe(dec, clock: Clock, kind: int, inp, win: bool):
 
 def run_real(cfg, hist):
     """hist: [(kind, input, win)]"""
-    out = {"ctor": None, "obs": [], "ts": []}
+    out = {"ctor": None, "obs": [], "ts": [], "map": [], "reasm": []}
     try:
         dec = H.make_decoder(cfg)
     except Exception as e:  # noqa: BLE001
@@ -221,6 +221,8 @@ def run_real(cfg, hist):
         ob, ts = observe(dec, clock, kind, inp, win)
         out["obs"].append(ob)
         out["ts"].append(ts)
+    out["map"] = [(s, H.iso_tuple(i)) for s, i in dec.source_to_iso_name.items()]
+    out["reasm"] = H.snapshot_reasm(dec)
     return out
 
 
@@ -268,7 +270,9 @@ def case_literal(cfg, hist, ob, K):
              clist(H.cs(x) for x in cfg["exm"]), clist(H.cs(x) for x in cfg["incm"]), cbool(cfg["nm"]),
              "None" if ok else f"(Some {H.cerr(ob['ctor'])})",
              clist(ctuple(FMT[k], cinput(k, i), cbool(w), cts(ts)) for (k, i, w), ts in zip(hist, ob["ts"])) if ok else "[]",
-             clist(cobs(o, K) for o in ob["obs"])]
+             clist(cobs(o, K) for o in ob["obs"]),
+             clist(ctuple(cz(s), H.ciso(e)) for s, e in ob["map"]),
+             clist(ctuple(ctuple(cz(k[0]), cz(k[1]), cz(k[2])), H.crec(*v)) for k, v in ob["reasm"])]
     return "(E " + "\n    ".join(parts) + ")"
 
 
@@ -487,17 +491,20 @@ def correspond(ctx, prop=None, n_tcp=None, n_other=None, n_wide=None):
     if not ok:
         return [{"name": "end to end: CorrEndToEnd.v does not compile against the regenerated tables", "n": 0, "failing": [],
                  "errors": [out[-1500:]], "distinct_nontrivial": 0}]
-    rng = random.Random(f"e2e:{ctx.seed}:{ctx.tier}")
+    rng = random.Random(f"e2e:{prop}:{ctx.seed}:{ctx.tier}")
     raw = gen_cases(ctx, rng, n_tcp if n_tcp is not None else ctx.n(70, 500), n_other if n_other is not None else ctx.n(40, 250),
                     n_wide if n_wide is not None else ctx.n(40, 300))
     rng.shuffle(raw)
     H.INTERN = {}
     observed, keys = [], []
     dist = {"classes": {}, "calls": 0, "msgs": 0, "none": 0, "errs": {}, "ctor_err": 0, "fields_compared": 0,
-            "msg_pgns": {}, "msg_ids": set(), "non_ascii_inputs": 0, "calls_per_format": {}}
+            "msg_pgns": {}, "msg_ids": set(), "non_ascii_inputs": 0, "calls_per_format": {}, "final_identities": 0,
+            "final_reassembly_records": 0}
     for cfg, hist, cls in raw:
         ob = run_real(cfg, hist)
         observed.append(ob)
+        dist["final_identities"] += len(ob["map"])
+        dist["final_reassembly_records"] += len(ob["reasm"])
         dist["classes"][cls] = dist["classes"].get(cls, 0) + 1
         dist["ctor_err"] += ob["ctor"] is not None
         kinds = [o[0] for o in ob["obs"]]
